@@ -45,6 +45,7 @@ type scenario struct {
 	// is still dialling the target; the 200 can then no longer be delivered. The target must still see
 	// end-of-stream promptly and both connections must be released.
 	AbortDuringDial string
+	DownStatus      string // status line the downstream proxy confirms the tunnel with (default "200 OK"): any 2xx means tunnel mode
 }
 
 func (s scenario) String() string {
@@ -54,7 +55,7 @@ func (s scenario) String() string {
 	if s.AbortDuringDial != "" {
 		return fmt.Sprintf("client %ss while the proxy is dialling, route=%s", s.AbortDuringDial, s.Route)
 	}
-	return fmt.Sprintf("head=%d c=%v t=%v first=%s/%s short=%v pingpong=%v route=%s pause=%ds", s.Head, s.CChunks, s.TChunks, s.Initiator, s.Mode, s.ShortRead, s.PingPong, s.Route, s.Pause)
+	return fmt.Sprintf("head=%d c=%v t=%v first=%s/%s short=%v pingpong=%v route=%s%s pause=%ds", s.Head, s.CChunks, s.TChunks, s.Initiator, s.Mode, s.ShortRead, s.PingPong, s.Route, map[bool]string{true: "(" + s.DownStatus + ")", false: ""}[s.DownStatus != ""], s.Pause)
 }
 
 func payload(tag byte, sizes []int) [][]byte {
@@ -226,6 +227,9 @@ func run(sc scenario) (body func(), check func(r *vrt.Result) []finding) {
 						return
 					}
 					head := "HTTP/1.1 200 OK\r\n\r\n"
+					if sc.DownStatus != "" {
+						head = "HTTP/1.1 " + sc.DownStatus + "\r\n\r\n"
+					}
 					if sc.Route == "downstream-coalesced" && len(out) > 0 {
 						b.Write(append([]byte(head), out[0]...))
 						out = out[1:]
@@ -307,7 +311,7 @@ func run(sc scenario) (body func(), check func(r *vrt.Result) []finding) {
 			headStatus = res.StatusCode
 			headWarning = res.Header.Get("Warning")
 			clientHead = res.Status
-			if res.StatusCode != 200 {
+			if res.StatusCode/100 != 2 {
 				cs.readDone, cs.wrDone = true, true
 				cl.C.Close()
 				return
@@ -392,8 +396,8 @@ func run(sc scenario) (body func(), check func(r *vrt.Result) []finding) {
 			}
 			return out
 		}
-		if headErr != nil || headStatus != 200 {
-			add("connect:no_200", "client did not receive a 200 for CONNECT: status=%d err=%v", headStatus, headErr)
+		if headErr != nil || headStatus/100 != 2 {
+			add("connect:no_200", "client did not receive a 2xx for CONNECT: status=%d err=%v", headStatus, headErr)
 			return out
 		}
 		C, T := concat(cpay), concat(tpay)
@@ -585,6 +589,12 @@ func scenarios(tier string) []scenario {
 				}
 				out = append(out, scenario{Head: 0, CChunks: []int{1, 2}, TChunks: []int{3, 1}, Initiator: in, Mode: "half", Route: route, Pause: pause})
 			}
+		}
+	}
+	// the downstream proxy confirms with a 2xx other than 200, or the way an HTTP/1.0 proxy would
+	for _, st := range []string{"204 No Content", "201 Created", "299 Whatever", "200 Connection established"} {
+		for _, in := range []string{"client", "target"} {
+			out = append(out, scenario{Head: 0, CChunks: []int{1, 2}, TChunks: []int{3, 1}, Initiator: in, Mode: "half", Route: "downstream", DownStatus: st})
 		}
 	}
 	// one end goes away with a reset instead of a close while the other end is waiting for more
